@@ -1842,7 +1842,17 @@ class Emit:
             self.need("loop")
             done = self.fresh("done")
             self.out("let mut %s := false" % done)
-            self.out("for _ in [0:100000] do")
+            # fuel: a loop over local integers gets a short structural list (the kernel can evaluate it, proofs can
+            # unroll it); a loop that depends on the assembler state gets a long range. Running out of fuel is an error.
+            def uses_self(x):
+                if isinstance(x, N):
+                    if x.k == "path" and x.path == ["self"]:
+                        return True
+                    return any(uses_self(v) for kk, v in x.__dict__.items() if kk != "ty")
+                if isinstance(x, (list, tuple)):
+                    return any(uses_self(y) for y in x)
+                return False
+            self.out("for _ in %s do" % ("[0:100000]" if uses_self(e.c) else "List.range 72"))
             self.ind += 1
             c = self.val(e.c)
             self.out("if !%s then" % c)
